@@ -516,7 +516,7 @@ let lifecycle_case (toks : string list) : string =
         | _ -> [])
       else (match b with
         | "c" -> [ M.EAccept f; M.EEof f ]
-        | "f" | "k" | "h" | "z" | "s" | "S" | "t" | "L" | "M" | "O" | "Y" -> [ M.EAccept f; M.EData f; M.EEof f ]
+        | "f" | "k" | "h" | "z" | "s" | "S" | "t" | "L" | "M" | "O" | "Y" | "P" | "G" | "E" -> [ M.EAccept f; M.EData f; M.EEof f ]
         | "A" -> [ M.EAccept f; M.EData f; M.EWriteFail f; M.EErr0 f ]
         | "d" | "b" -> [ M.EAccept f; M.EData f; M.EEof f ]
         | "r" -> [ M.EAccept f; M.EData f; M.EErr0 f ]
@@ -524,7 +524,7 @@ let lifecycle_case (toks : string list) : string =
         | "j" | "m" -> [ M.EAccept f; M.EData f; M.EIdle f ]
         | "w" -> [ M.EAccept f; M.EData f; M.EWriteFail f; M.EErr0 f ]   (* the 408 never gets written: no idle close *)
         | _ -> []) in
-    let request_seen b = List.mem b [ "f"; "k"; "h"; "r"; "m"; "w"; "z"; "s"; "S"; "t"; "A"; "L"; "M"; "O"; "Y" ] in
+    let request_seen b = List.mem b [ "f"; "k"; "h"; "r"; "m"; "w"; "z"; "s"; "S"; "t"; "A"; "L"; "M"; "O"; "Y"; "P"; "G"; "E" ] in
     (* interleave the connections of one round event by event *)
     let rec interleave (ls : M.ev0 list list) : M.ev0 list =
       let heads = List.filter_map (function [] -> None | x :: _ -> Some x) ls in
@@ -538,7 +538,7 @@ let lifecycle_case (toks : string list) : string =
     let st = M.lrun evs in
     (* the write queues: behaviours that leave an answer unsent when the connection ends *)
     let unsent b = if mode = "T" then b = "p" else List.mem b [ "z"; "w"; "s"; "A" ] in
-    let answered b = if mode = "T" then List.mem b [ "d"; "f"; "h"; "r"; "n" ] else List.mem b [ "f"; "k"; "h"; "r"; "m"; "S"; "t"; "i"; "j"; "M"; "O"; "Y" ] in
+    let answered b = if mode = "T" then List.mem b [ "d"; "f"; "h"; "r"; "n" ] else List.mem b [ "f"; "k"; "h"; "r"; "m"; "S"; "t"; "i"; "j"; "M"; "O"; "Y"; "P"; "G"; "E" ] in
     let qconn fd b =
       let f = nat_of_int fd in
       [ M.QAccept f ] @ (if unsent b then [ M.QQueue f ] else if answered b then [ M.QQueue f; M.QFlush f ] else []) @ [ M.QClose f ] in
